@@ -29,6 +29,11 @@ func genInline(r *Rng, n int) string {
 		case 3:
 			fmt.Fprintf(&b, "`%s`", w)
 		case 4:
+			if r.Split("padded-span").Chance(1, 3) {
+				// padded with two or more spaces / a line ending on both sides (one is stripped)
+				fmt.Fprintf(&b, "`%s%s%s`", pick(r, []string{"  ", "   ", " \n"}), w, pick(r, []string{"  ", "   ", "\n "}))
+				break
+			}
 			fmt.Fprintf(&b, "`` %s ` %s ``", w, word(r))
 		case 5:
 			fmt.Fprintf(&b, "[%s](/%s %s)", w, pick(r, tricky), genTitle(r))
